@@ -36,29 +36,46 @@ def prepareReplay (r : Msg) : Except Exc Msg := do
   let r ← r.del tTargetCompID
   r.del tCheckSum
 
-/-- the `for enc_msg in journal_replay_msgs` loop (l.633-664) with its two running variables
-`gap_fill_begin`, `gap_fill_end`; returns their final values. -/
-def resendLoop (env : Env) (sr : Msg → Bool) : List Msg → Int → Int → M (Int × Int)
+/-- `persist_msg(enc_msg, session, OUTBOUND)` of a recovered row under its own number `n`
+(`find_seq_no` reads the same 34 field that `int(replay_msg[34])` has just parsed):
+DuplicateSeqNoError when the number is taken, else the row is stored and the stored outbound counter
+becomes `n`. -/
+def persistOutboundRow (n : Int) (row : Msg) : M Unit := do
+  let c ← M.get
+  match c.journal.persist .outbound n row with
+  | none => M.throw .duplicateSeqNo
+  | some j => M.modify fun c => { c with journal := j }
+
+/-- the `for enc_msg in journal_replay_msgs` loop (l.633-672) with its two running variables
+`gap_fill_begin`, `gap_fill_end`; returns their final values.  Rows numbered above the requested
+EndSeqNo go back into the journal unsent (fix da179c4: the FIRST `set_seq_num` deleted them). -/
+def resendLoop (env : Env) (sr : Msg → Bool) (endNo : Int) : List Msg → Int → Int → M (Int × Int)
   | [], gfb, gfe => pure (gfb, gfe)
   | row :: rest, gfb, gfe => do
     let v ← M.liftE (row.get tMsgSeqNum)
     let n ← M.int v
-    let ty ← M.liftE (row.get tMsgType)
-    if ConnEnum.noReplay.contains ty || !sr row then
-      resendLoop env sr rest gfb (n + 1)
+    if n > endNo then do
+      persistOutboundRow n row
+      resendLoop env sr endNo rest gfb gfe
     else do
-      if gfb < n then sendMsg env (gapFillMsg gfb n) else pure ()
-      let rp ← M.liftE (prepareReplay row)
-      sendMsg env rp
-      resendLoop env sr rest (n + 1) gfe
+      let ty ← M.liftE (row.get tMsgType)
+      if ConnEnum.noReplay.contains ty || !sr row then
+        resendLoop env sr endNo rest gfb (n + 1)
+      else do
+        if gfb < n then sendMsg env (gapFillMsg gfb n) else pure ()
+        let rp ← M.liftE (prepareReplay row)
+        sendMsg env rp
+        resendLoop env sr endNo rest (n + 1) gfe
 
 /-- `_process_resend`.  Steps: state RESENDREQ_HANDLING unless awaiting; `int()` of 7 and 16
 (TagNotFoundError / ValueError); EndSeqNo 0 ↦ `sys.maxsize`; range check (F15: a request starting below
-1 or at / beyond `next_num_out` is ignored and the state restored); recover rows; remember
-`next_num_out`; FIRST `set_seq_num(next_num_out = BeginSeqNo)` (rewinds the counter, deletes journal
-rows `≥ BeginSeqNo`); loop; `assert gap_fill_end <= current_next_num_out`; trailing gap fill up to the
-remembered counter; SECOND `set_seq_num(next_num_out = remembered)`; state ACTIVE unless awaiting.
-An exception anywhere leaves the counter rewound and the state as it is (caught by the caller). -/
+1 or at / beyond `next_num_out` is ignored and the state restored); recover ALL rows from BeginSeqNo on
+(fix da179c4); remember `next_num_out`; FIRST `set_seq_num(next_num_out = BeginSeqNo)` (rewinds the
+counter, deletes journal rows `≥ BeginSeqNo`); loop (rows above EndSeqNo are put back unsent);
+`assert gap_fill_end <= current_next_num_out` (the loop's value); trailing gap fill from `gap_fill_begin`
+up to `min(EndSeqNo + 1, remembered counter)`; SECOND `set_seq_num(next_num_out = remembered)`; state
+ACTIVE unless awaiting.  An exception anywhere leaves the counter rewound and the state as it is (caught
+by the caller). -/
 def processResend (env : Env) (sr : Msg → Bool) (m : Msg) : M Unit := do
   let c0 ← M.get
   if c0.state != st_RESENDREQ_AWAITING then stateSet st_RESENDREQ_HANDLING else pure ()
@@ -73,12 +90,13 @@ def processResend (env : Env) (sr : Msg → Bool) (m : Msg) : M Unit := do
   if b < 1 || b ≥ c.sess.nextOut then
     if c.state != st_RESENDREQ_AWAITING then stateSet st_ACTIVE else pure ()
   else do
-    let rows := c.journal.recoverOut b e
+    let rows := c.journal.recoverOut b sysMaxsize
     let cur := c.sess.nextOut
     setSeqNum (some b) none
-    let (gfb, gfe) ← resendLoop env sr rows b b
+    let (gfb, gfe) ← resendLoop env sr e rows b b
     M.assert (decide (gfe ≤ cur))
-    if gfb < cur then sendMsg env (gapFillMsg gfb cur) else pure ()
+    let gfe2 := min (e + 1) cur
+    if gfb < gfe2 then sendMsg env (gapFillMsg gfb gfe2) else pure ()
     setSeqNum (some cur) none
     let c2 ← M.get
     if c2.state != st_RESENDREQ_AWAITING then stateSet st_ACTIVE else pure ()
